@@ -258,8 +258,9 @@ def explore_prefix(index, reg: Registry, ci: ContractInfo, prop: str, prefix, kn
                     work.append(I.decisions[:i] + [k])
         rep.inlined |= I.inlined
         rep.contract_uses |= {u[0] for u in I.contract_uses}
-        if status in ('ok', 'unsupported'):
-            # obligations emitted before an Unsupported construct are still valid obligations of that path prefix
+        if status in ('ok', 'unsupported', 'infeasible'):
+            # obligations emitted before an Unsupported construct (or before the path condition became unsatisfiable, e.g. a
+            # call-site precondition that is plainly false) are still valid obligations of that path prefix
             for ob in I.obligations:
                 full = f'{prop}/{ci.name}/{ob.oid}'
                 obs.append((full, ob, dict(I.input_vars), rep.paths))
@@ -296,6 +297,26 @@ def resolve_target(qualname: str):
             obj = getattr(obj, a) if not isinstance(obj, property) else obj
         return owner, parts[-1], obj
     raise ImportError(qualname)
+
+
+def global_state():
+    """the mutable module-level and class-level state of the kernpy package (dict / list / set valued names): part of every
+    frame comparison, so that a hidden cache or a shared default that changes is seen by the replay"""
+    import sys
+    out = {}
+    for mname, mod in sorted(sys.modules.items()):
+        if not mname.startswith('kernpy') or '.generated' in mname or mod is None:
+            continue
+        for k, v in sorted(vars(mod).items()):
+            if isinstance(v, (dict, list, set)) and not k.startswith('__'):
+                out[f'{mname}.{k}'] = v
+            elif isinstance(v, type) and getattr(v, '__module__', '') == mname:
+                for ck, cv in sorted(vars(v).items()):
+                    if isinstance(cv, (dict, list, set)) and not ck.startswith('__'):
+                        out[f'{mname}.{k}.{ck}'] = cv
+                    elif ck == 'NextID':
+                        pass
+    return out
 
 
 def deep_state(v, memo=None, depth=0):
@@ -364,15 +385,22 @@ def replay_pre(ci: ContractInfo, ob_label: str, model: dict):
     raw = inspect.getattr_static(owner, name)
     fn = raw.__func__ if isinstance(raw, (classmethod, staticmethod)) else raw
     violated = []
-    sig = inspect.signature(fn)
+    try:
+        sig = inspect.signature(fn)
+    except (ValueError, TypeError):
+        sig = None          # a builtin of the standard library: the clauses see the keywords by name and `args`
 
     def wrapper(*a, **k):
         try:
-            bound = sig.bind(*a, **k)
-            bound.apply_defaults()
-            ok = _call_native(callee, 'requires', dict(bound.arguments))
+            if sig is not None:
+                bound = sig.bind(*a, **k)
+                bound.apply_defaults()
+                arguments = dict(bound.arguments)
+            else:
+                arguments = dict(k, args=tuple(a), kwargs=dict(k))
+            ok = _call_native(callee, 'requires', arguments)
             if not ok:
-                violated.append({k2: _show(v2) for k2, v2 in bound.arguments.items()})
+                violated.append({k2: _show(v2) for k2, v2 in arguments.items()})
         except Exception as e:
             violated.append({'wrapper-error': repr(e)})
         return fn(*a, **k)
@@ -411,7 +439,7 @@ def _replay(ci: ContractInfo, ob_kind: str, ob_label: str, model: dict):
             info.update(confirmed=None, reason='model violates requires')
             return info
         info['arguments'] = {k: _show(v) for k, v in vals.items()}
-        before = deep_state(vals)
+        before = deep_state({'args': vals, 'globals': global_state()})
         old = copy.deepcopy(vals)
         exc = None
         result = None
@@ -446,7 +474,7 @@ def _replay(ci: ContractInfo, ob_kind: str, ob_label: str, model: dict):
             want = base[3:]
             info.update(confirmed=(exc is not None and type(exc).__name__ == want), clause=f'no uncaught {want}')
         elif ob_kind == 'frame':
-            after = deep_state(vals)
+            after = deep_state({'args': vals, 'globals': global_state()})
             info.update(confirmed=(before != after), clause='modifies')
             if before != after:
                 info['state_before'] = _trunc(before)
@@ -481,7 +509,7 @@ def native_check(ci: ContractInfo, g: ConcreteFactory):
         return None
     if ci.has('requires') and not _call_native(ci, 'requires', vals):
         return None
-    before = deep_state(vals)
+    before = deep_state({'args': vals, 'globals': global_state()})
     old = copy.deepcopy(vals)
     exc, result = None, None
     try:
@@ -517,7 +545,7 @@ def native_check(ci: ContractInfo, g: ConcreteFactory):
             failed.append(f'safe:no-{en}')
     if ci.kind == 'function':
         allowed = getattr(ci.pycls, 'modifies', ())
-        if not allowed and not ci.has('modifies_objs') and deep_state(vals) != before:
+        if not allowed and not ci.has('modifies_objs') and deep_state({'args': vals, 'globals': global_state()}) != before:
             failed.append('frame:*')
     return failed
 
